@@ -752,7 +752,7 @@ class G:
         if depth >= self.max_depth:
             return self.leaf(scope)
         choices = ["leaf", "leaf", "if", "do", "let", "call", "prim", "prim", "vec", "try", "loop", "fncall",
-                   "letfn", "closure-loop", "coll", "throw", "def", "quote", "fnrecur"]
+                   "letfn", "closure-loop", "coll", "throw", "def", "quote", "fnrecur", "stmt-if", "let-shadow", "swap-loop"]
         if not self.globals:
             choices = [c for c in choices]
         c = self.pick(choices)
@@ -814,6 +814,12 @@ class G:
             return self.letfn(scope, depth, tail, infn)
         if c == "fnrecur":
             return self.fnrecur(scope, depth)
+        if c == "stmt-if":
+            return self.stmt_if(scope, depth, tail, infn)
+        if c == "let-shadow":
+            return self.let_shadow(scope, depth)
+        if c == "swap-loop":
+            return self.swap_loop(scope, depth)
         if c == "def":
             nm = self.pick(GLOBAL_NAMES)
             if nm not in self.globals:
@@ -965,6 +971,55 @@ class G:
             rec = ["let", [[ln, self.expr(sc, depth + 2)]], [rec]]
         body = ["if", ["p", "p<", [["l", cn], ["c", limit]]], rec, fin]
         return ["loop", bs, [body]]
+
+    def stmt_if(self, scope, depth, tail, infn):
+        """a one-armed `if` in statement position whose test is logically true but false-like in Python
+        (0, "", []), and whose branch has an effect (throw / def)"""
+        test = self.pick([["c", 0], ["c", ["s", ""]], ["vec", []], ["p", "pdec", [["c", 1]]], ["c", 0], ["q", ["qlist", []]]])
+        self.features.add("stmt-if")
+        if self.globals and self.chance(50):
+            nm = self.pick(self.globals)
+            return ["do", [["if", test, ["def", nm, self.expr(scope, depth + 1)], None], ["g", nm]]]
+        return ["do", [["if", test, ["throw", self.pick(EXC_KINDS), self.pick(["m1", "m2"])], None], self.expr(scope, depth + 1, tail, infn)]]
+
+    def let_shadow(self, scope, depth):
+        """(let [x e1 f (fn [] x) x e2] [(f) x]): a name bound twice in one binding vector, with a closure over the
+        first binding created in between and called after the second"""
+        x = self.name()
+        f = self.pick([n for n in LOCAL_NAMES if n != x])
+        sc = dict(scope)
+        e1 = self.expr(sc, depth + 1)
+        sc[x] = ("val",)
+        fn = ["fn", None, [[[], None, [["l", x]]]]]
+        if self.chance(30):
+            fn = ["fn", None, [[[], None, [["p", "pvec", [["l", x], self.expr(sc, depth + 2)]]]]]]
+        sc2 = dict(sc)
+        sc2[f] = ("fn", [0])
+        e2 = self.expr(sc2, depth + 1)
+        self.features.add("let-shadow")
+        return ["let", [[x, e1], [f, fn], [x, e2]], [["vec", [["call", ["l", f], []], ["l", x]]]]]
+
+    def swap_loop(self, scope, depth):
+        """a loop whose recur arguments are all bare locals or constants and permute the loop locals:
+        (loop [a e1 b e2 i 0 n 1 k 2] (if (peq i ITERS) [a b ..] (recur b a n k k)))"""
+        d = self.draw
+        pool = [n for n in LOCAL_NAMES if n not in ("i", "n", "k")]
+        a = self.pick(pool)
+        b = self.pick([n for n in pool if n != a])
+        iters = d(st.integers(1, 2))
+        sc = dict(scope)
+        bs = [[a, self.expr(sc, depth + 1)]]
+        sc[a] = ("val",)
+        bs.append([b, self.expr(sc, depth + 1)])
+        sc[b] = ("val",)
+        bs += [["i", ["c", 0]], ["n", ["c", 1]], ["k", ["c", 2]]]
+        for nm in ("i", "n", "k"):
+            sc[nm] = ("val",)
+        first, second = self.pick([(["l", b], ["l", a]), (["l", b], ["l", a]), (["l", b], ["l", b]), (["l", b], ["c", 7]), (["c", 7], ["l", a])])
+        rec = ["recur", [first, second, ["l", "n"], ["l", "k"], ["l", "k"]]]
+        fin = ["vec", [["l", a], ["l", b], ["l", "i"]]]
+        self.features.add("swap-loop")
+        return ["loop", bs, [["if", ["p", "peq", [["l", "i"], ["c", iters]]], fin, rec]]]
 
     def fnrecur(self, scope, depth):
         """((fn nm [i acc] (if (p< i L) (recur (pinc i) e) r)) 0 init): recur to a fn arity"""
